@@ -239,7 +239,7 @@ Proof.
     destruct (m_st (select_state sf m)); cbn [fst snd]; (split; [|discriminate]);
       unfold both_rst; cbn [m_src1 m_src2 d_it]; split; assumption.
   - destruct B as (A & B). unfold mx_reset, desc_reset, src_reset. rewrite A, B. cbn [fst snd].
-    split; [split; assumption|reflexivity].
+    split; [unfold both_rst; cbn; split; reflexivity|reflexivity].
 Qed.
 
 Theorem gen_step_refines : forall h g m c, mrel h g m -> both_rst m ->
@@ -283,3 +283,128 @@ Proof.
 Qed.
 
 End MixerTie.
+
+(** * An implementation of the parameters: list-backed sources in heap arrays
+
+    The handle [a] is the index of a heap array holding the model source
+    ([enc_src]: length of the slice, the Reseter flag, the whole slice, what is
+    left of it).  This shows that the hypotheses of the section are
+    satisfiable and gives the closed form of the headline theorem. *)
+
+Definition b2z (b : bool) : Z := if b then 1 else 0.
+
+Fixpoint flat (its : list (Z * bool)) : list Z :=
+  match its with [] => [] | (v, ok) :: t => v :: b2z ok :: flat t end.
+
+Fixpoint unflat (fuel : nat) (l : list Z) : list (Z * bool) :=
+  match fuel, l with
+  | S f, v :: o :: t => (v, o =? 1) :: unflat f t
+  | _, _ => []
+  end.
+
+Definition enc_src (s : src) : list Z :=
+  Z.of_nat (length (s_orig s)) :: b2z (s_rst s) :: flat (s_orig s) ++ flat (s_rest s).
+
+Definition dec_src (arr : list Z) : src :=
+  match arr with
+  | n :: r :: body =>
+      let k := (2 * Z.to_nat n)%nat in
+      mkSrc (unflat (length body) (firstn k body)) (unflat (length body) (skipn k body)) (r =? 1)
+  | _ => mkSrc [] [] false
+  end.
+
+Lemma flat_length its : length (flat its) = (2 * length its)%nat.
+Proof. induction its as [|[v ok] t IH]; cbn [flat length]; lia. Qed.
+
+Lemma unflat_flat its : forall fuel, (length its <= fuel)%nat -> unflat fuel (flat its) = its.
+Proof.
+  induction its as [|[v ok] t IH]; intros fuel Hf; [destruct fuel; reflexivity|].
+  destruct fuel as [|f]; [cbn in Hf; lia|]. cbn [flat unflat]. rewrite IH by (cbn [length] in Hf; lia).
+  destruct ok; reflexivity.
+Qed.
+
+Lemma dec_enc s : dec_src (enc_src s) = s.
+Proof.
+  destruct s as [orig rest rst]. unfold enc_src, dec_src. cbn [s_orig s_rest s_rst].
+  rewrite Nat2Z.id, <- flat_length.
+  rewrite firstn_app, Nat.sub_diag, firstn_all. cbn [firstn]. rewrite app_nil_r.
+  rewrite skipn_app, Nat.sub_diag, skipn_all. cbn [skipn app].
+  rewrite !unflat_flat by (rewrite app_length, !flat_length; lia).
+  destruct rst; reflexivity.
+Qed.
+
+Definition lit_get (a : Z) (h : heap) : src := dec_src (arr_get h (Z.to_nat a)).
+Definition lit_put (a : Z) (s : src) (h : heap) : heap := arr_set h (Z.to_nat a) (enc_src s).
+
+Definition lit_HasNext (a : Z) : M bool := fun h => Ok (src_has_next (lit_get a h), h).
+Definition lit_Next (a : Z) : M (Z * bool) := fun h =>
+  Ok (snd (src_next (lit_get a h)), lit_put a (fst (src_next (lit_get a h))) h).
+Definition lit_Close (_ : Z) : M error := ret ENil.
+Definition lit_asReseter (a : Z) : M (Z * bool) := fun h => Ok ((a, s_rst (lit_get a h)), h).
+Definition lit_Reset (a : Z) : M error := fun h => Ok (ENil, lit_put a (fst (src_reset (lit_get a h))) h).
+
+Definition Rlit (h : heap) (a : Z) (s : src) : Prop :=
+  0 <= a /\ (Z.to_nat a < length h)%nat /\ arr_get h (Z.to_nat a) = enc_src s.
+
+Lemma Rlit_get h a s : Rlit h a s -> lit_get a h = s.
+Proof. intros (_ & _ & E). unfold lit_get. rewrite E. apply dec_enc. Qed.
+
+Lemma Rlit_put_same h a s s' : Rlit h a s -> Rlit (lit_put a s' h) a s'.
+Proof.
+  intros (A & L & _). unfold Rlit, lit_put. rewrite length_arr_set by exact L.
+  rewrite arr_get_set_same by exact L. repeat split; assumption.
+Qed.
+
+Lemma Rlit_put_other h a s b s' sb : Rlit h a s -> b <> a -> Rlit h b sb -> Rlit (lit_put a s' h) b sb.
+Proof.
+  intros (A & L & _) Hne (B & Lb & Eb). unfold Rlit, lit_put. rewrite length_arr_set by exact L.
+  rewrite arr_get_set_other by (try exact L; lia). repeat split; assumption.
+Qed.
+
+Lemma lit_has_spec : forall h a s, Rlit h a s -> lit_HasNext a h = Ok (src_has_next s, h).
+Proof. intros h a s R. unfold lit_HasNext. rewrite (Rlit_get h a s R). reflexivity. Qed.
+
+Lemma lit_next_spec : forall h a s, Rlit h a s ->
+  exists h', lit_Next a h = Ok (snd (src_next s), h') /\ Rlit h' a (fst (src_next s)) /\
+             forall b s', b <> a -> Rlit h b s' -> Rlit h' b s'.
+Proof.
+  intros h a s R. unfold lit_Next. rewrite (Rlit_get h a s R). eexists. split; [reflexivity|].
+  split; [eapply Rlit_put_same; exact R|]. intros b s' Hne Rb. eapply Rlit_put_other; eassumption.
+Qed.
+
+Lemma lit_reset_spec : forall h a s, Rlit h a s ->
+  exists rs, lit_asReseter a h = Ok ((rs, s_rst s), h) /\
+    (s_rst s = true ->
+       exists h', lit_Reset rs h = Ok (ENil, h') /\ Rlit h' a (fst (src_reset s)) /\
+                  forall b s', b <> a -> Rlit h b s' -> Rlit h' b s').
+Proof.
+  intros h a s R. exists a. unfold lit_asReseter, lit_Reset. rewrite (Rlit_get h a s R).
+  split; [reflexivity|]. intros _. eexists. split; [reflexivity|].
+  split; [eapply Rlit_put_same; exact R|]. intros b s' Hne Rb. eapply Rlit_put_other; eassumption.
+Qed.
+
+(** The closed headline: the translated mixer over two heap-encoded
+    WrapIntSlice sources is the two-pointer merge. *)
+Theorem gen_mixer_refines_merge_lit :
+  forall (sf : Z -> Z -> bool) (l1 l2 : list Z) (cs : list call) (g0 : Gen.Mixer) (sfh : Z),
+  fst (fst (gen_run lit_HasNext lit_Next lit_asReseter lit_Reset sf
+              (Gen.Mixer_Init g0 sfh 0 1) cs [enc_src (wrap_ints l1); enc_src (wrap_ints l2)]))
+  = fst (spec_run sf (spec_init l1 l2) cs).
+Proof.
+  intros sf l1 l2 cs g0 sfh.
+  apply (gen_mixer_refines_merge lit_HasNext lit_Next lit_asReseter lit_Reset sf Rlit
+           lit_has_spec lit_next_spec lit_reset_spec); [lia| |];
+    unfold Rlit, arr_get; cbn [Z.to_nat length nth]; repeat split; lia.
+Qed.
+Print Assumptions gen_mixer_refines_merge_lit.
+
+(* non-vacuity: the generated code runs; a merge by <, a Reset in the middle *)
+Example gen_ex_mixer :
+  let g0 := Gen.mk_Mixer 0 (Gen.mk_srcDesc 0 false 0) (Gen.mk_srcDesc 0 false 0) 0 in
+  fst (fst (gen_run lit_HasNext lit_Next lit_asReseter lit_Reset Z.ltb
+              (Gen.Mixer_Init g0 7 0 1)
+              [CHasNext; CNext; CNext; CReset; CNext; CNext; CNext; CNext; CNext; CNext; CHasNext]
+              [enc_src (wrap_ints [1; 4; 6]); enc_src (wrap_ints [2; 3])]))
+  = [OHas true; ONext 1 true; ONext 2 true; OReset ROk; ONext 1 true; ONext 2 true; ONext 3 true;
+     ONext 4 true; ONext 6 true; ONext 0 false; OHas false].
+Proof. vm_compute. reflexivity. Qed.
